@@ -125,7 +125,37 @@ def r11_1(prog: Program, chk: Check) -> None:
 
 
 def _guard_names(prog: Program) -> None:
-    need_locals(prog.func("node_visitor", "BaseNodeVisitor.show_error"), "lines", "lineno", "this_line", "prev_line", "ignore_comment", "error_code")
+    need_locals(prog.func("node_visitor", "BaseNodeVisitor.show_error"), "lines", "lineno", "ignore_comment", "error_code")
+
+
+def _ignore_return_ifs(fn: ast.FunctionDef) -> List[Tuple[ast.If, str, Optional[str]]]:
+    """`if <test>: self.used_ignores.add(IDX); return` inside show_error ->
+    (if, IDX text, name of the local that holds the matched line)."""
+    out = []
+    for n in walk_no_nested(fn):
+        if not isinstance(n, ast.If) or not n.body or not isinstance(n.body[-1], ast.Return):
+            continue
+        adds = [s for s in n.body if isinstance(s, ast.Expr) and isinstance(s.value, ast.Call) and norm(s.value.func) == "self.used_ignores.add"]
+        if not adds:
+            continue
+        idx = norm(adds[0].value.args[0])
+        # the local whose defining expression reads lines[IDX] and that the test (or a
+        # local feeding the test) mentions
+        line_var = None
+        names_in_test = {x.id for x in ast.walk(n.test) if isinstance(x, ast.Name)}
+        frontier = set(names_in_test)
+        for _ in range(3):
+            for nm in list(frontier):
+                for a in local_assignments(fn, nm):
+                    for x in ast.walk(a):
+                        if isinstance(x, ast.Name):
+                            frontier.add(x.id)
+        for nm in sorted(frontier):
+            for a in local_assignments(fn, nm):
+                if any(isinstance(sx, ast.Subscript) and norm(sx.value) == "lines" for sx in ast.walk(a)):
+                    line_var = line_var or nm
+        out.append((n, idx, line_var))
+    return out
 
 
 def r11_2(prog: Program, chk: Check) -> None:
@@ -136,41 +166,24 @@ def r11_2(prog: Program, chk: Check) -> None:
         floor=3,
     )
     fn = prog.func("node_visitor", "BaseNodeVisitor.show_error")
-    n_found = 0
-    for n in walk_no_nested(fn):
-        if not isinstance(n, ast.If):
-            continue
-        t = norm(n.test)
-        if "ignore_comment" not in t:
-            continue
-        if not (n.body and isinstance(n.body[-1], ast.Return)):
-            continue
-        # which line variable does the test read?
-        line_vars = [x.id for x in ast.walk(n.test) if isinstance(x, ast.Name) and x.id.endswith("_line")]
-        if not line_vars:
-            continue
-        n_found += 1
-        lv = line_vars[0]
-        idx = None
-        for a in local_assignments(fn, lv):
-            for s in ast.walk(a):
-                if isinstance(s, ast.Subscript) and norm(s.value) == "lines":
-                    idx = norm(s.slice)
-        adds = [
-            s
-            for s in n.body
-            if isinstance(s, ast.Expr) and isinstance(s.value, ast.Call) and norm(s.value.func) == "self.used_ignores.add"
-        ]
-        ok = len(n.body) == 2 and len(adds) == 1 and idx is not None and norm(adds[0].value.args[0]) == idx
+    found = _ignore_return_ifs(fn)
+    if len(found) < 2:
+        raise AnchorError("show_error: fewer than 2 `used_ignores.add(...); return` arms found")
+    for n, idx_used, lv in found:
+        idx_read = None
+        if lv is not None:
+            for a in local_assignments(fn, lv):
+                for sx in ast.walk(a):
+                    if isinstance(sx, ast.Subscript) and norm(sx.value) == "lines":
+                        idx_read = norm(sx.slice)
+        ok = len(n.body) == 2 and idx_read is not None and idx_used == idx_read
         chk.ob(
             "R11.2",
-            f"node_visitor::BaseNodeVisitor.show_error::ignore-return::{lv}",
+            f"node_visitor::BaseNodeVisitor.show_error::ignore-return::lines[{idx_read}]",
             ok,
             prog.site("node_visitor", n),
-            f"suppression by `{lv}` (= lines[{idx}]) must be `self.used_ignores.add({idx}); return` and nothing else",
+            f"suppression decided on lines[{idx_read}] must be `self.used_ignores.add({idx_read}); return` and nothing else (found add({idx_used}))",
         )
-    if n_found < 2:
-        raise AnchorError("show_error: fewer than 2 per-line ignore tests found")
     hf = prog.func("node_visitor", "BaseNodeVisitor.has_file_level_ignore")
     loops = [n for n in walk_no_nested(hf) if isinstance(n, ast.For)]
     ok = False
@@ -334,27 +347,30 @@ def r11_5(prog: Program, chk: Check) -> None:
 def r11_6(prog: Program, chk: Check) -> None:
     chk.rule("R11.6", "code-specific ignore comments compare the code name; the bare form excludes the bracket form", floor=4)
     fn = prog.func("node_visitor", "BaseNodeVisitor.show_error")
-    tests = [n for n in walk_no_nested(fn) if isinstance(n, ast.If) and "ignore_comment" in norm(n.test) and any(isinstance(x, ast.Name) and x.id.endswith("_line") for x in ast.walk(n.test))]
-    for n in tests:
-        t = norm(n.test)
-        lv = [x.id for x in ast.walk(n.test) if isinstance(x, ast.Name) and x.id.endswith("_line")][0]
+    for n, idx_used, lv in _ignore_return_ifs(fn):
+        # the test, together with the locals that feed it
+        texts = [norm(n.test)]
+        for nm in {x.id for x in ast.walk(n.test) if isinstance(x, ast.Name)}:
+            texts += [norm(a) for a in local_assignments(fn, nm)]
+        t = " ; ".join(texts)
         chk.ob(
             "R11.6",
-            f"node_visitor::BaseNodeVisitor.show_error::{lv}::code-form",
-            "[{error_code.name}]" in t and "error_code is not None" in t,
+            f"node_visitor::BaseNodeVisitor.show_error::lines[{idx_used}]::code-form",
+            "error_code.name" in t and "error_code is not None" in t,
             prog.site("node_visitor", n),
-            f"the code-specific form on {lv} must compare `[{{error_code.name}}]` under `error_code is not None`",
+            "the code-specific form must compare `[error_code.name]` under `error_code is not None`",
         )
-        if lv == "this_line":
-            bare_ok = "(?!\\\\[)" in t or "(?!\\[)" in t
+        own_line = idx_used.replace(" ", "") == "lineno-1"
+        if own_line:
+            bare_ok = "(?!\\\\[)" in t or "(?!\\[)" in t or "group(1) is None" in t
         else:
-            bare_ok = f"{lv} == ignore_comment" in t
+            bare_ok = "== ignore_comment" in t
         chk.ob(
             "R11.6",
-            f"node_visitor::BaseNodeVisitor.show_error::{lv}::bare-form",
+            f"node_visitor::BaseNodeVisitor.show_error::lines[{idx_used}]::bare-form",
             bare_ok,
             prog.site("node_visitor", n),
-            f"the bare form on {lv} must not match a comment that names a different code",
+            "the bare form must not match a comment that names a different code",
         )
     hf = prog.func("node_visitor", "BaseNodeVisitor.has_file_level_ignore")
     t = norm(hf)
